@@ -1,0 +1,42 @@
+// Copyright 2023-2026 Buf Technologies, Inc.
+//
+// Licensed under the Apache License, Version 2.0 (the "License");
+// you may not use this file except in compliance with the License.
+// You may obtain a copy of the License at
+//
+//      http://www.apache.org/licenses/LICENSE-2.0
+//
+// Unless required by applicable law or agreed to in writing, software
+// distributed under the License is distributed on an "AS IS" BASIS,
+// WITHOUT WARRANTIES OR CONDITIONS OF ANY KIND, either express or implied.
+// See the License for the specific language governing permissions and
+// limitations under the License.
+
+//go:build verif
+
+// Package veriftest is only compiled with the "verif" build tag. It makes the
+// repository's generated test services (vanguard.test.v1, which live in an
+// internal package) reachable for the external verification harness: importing
+// it registers their descriptors and Go types globally, and NewGRPCServer
+// returns a gRPC server that has them registered.
+package veriftest
+
+import (
+	testv1 "connectrpc.com/vanguard/internal/gen/vanguard/test/v1"
+	"google.golang.org/grpc"
+)
+
+// Names of the generated test services.
+const (
+	LibraryServiceName = "vanguard.test.v1.LibraryService"
+	ContentServiceName = "vanguard.test.v1.ContentService"
+)
+
+// NewGRPCServer returns a gRPC server with the unimplemented test services
+// registered, as input for vanguardgrpc.NewTranscoder.
+func NewGRPCServer() *grpc.Server {
+	server := grpc.NewServer()
+	testv1.RegisterLibraryServiceServer(server, testv1.UnimplementedLibraryServiceServer{})
+	testv1.RegisterContentServiceServer(server, testv1.UnimplementedContentServiceServer{})
+	return server
+}
